@@ -63,6 +63,7 @@ func main() {
 	maxSteps := flag.Int64("maxsteps", 50_000_000, "instruction budget per path")
 	budget := flag.Duration("budget", 0, "wall-clock budget per harness (0 = none)")
 	trace := flag.Bool("trace", false, "trace instructions")
+	noModel := flag.Bool("nomodelguide", false, "disable model-guided branching")
 	noIfc := flag.Bool("noifconvert", false, "disable if-conversion")
 	skipInit := flag.String("skipinit", "", "comma separated package paths whose init is not run")
 	flag.Parse()
@@ -105,6 +106,7 @@ func main() {
 	eng.Trace = *trace
 	eng.HarnessBudget = *budget
 	eng.NoIfConvert = *noIfc
+	eng.NoModelGuide = *noModel
 	for _, p := range strings.Split(*skipInit, ",") {
 		if p != "" {
 			eng.SkipInitPkgs[p] = true
